@@ -61,7 +61,7 @@ READ_ROUTES = ['prop', 'prop_len', 'parse', 'unpack', 'read']
 def boundary(rng, name, n):
     signed = name.startswith('int')
     lo, hi = (-(1 << (n - 1)), (1 << (n - 1)) - 1) if signed else (0, (1 << n) - 1)
-    return rng.choice([0, 1, -1 if signed else 1, lo, hi, lo + 1, hi - 1, rng.randrange(lo, hi + 1), rng.randrange(lo, hi + 1)])
+    return min(hi, max(lo, rng.choice([0, 1, -1 if signed else 1, lo, hi, lo + 1, hi - 1, rng.randrange(lo, hi + 1), rng.randrange(lo, hi + 1)])))
 
 def gen_cases(rng, tier):
     N = 700 if tier == 'quick' else 12000
